@@ -144,6 +144,20 @@ def check_misc(ck, prog):
                       key="ERR:publish:" + fk[1])
     ck.ob("C08-ERR", "publish:both", wrote == {"unpadded_size", "uncompressed_size"}, common.where(w),
           "worker_encode sets both sizes of the outbuf before returning THR_FINISH", key="ERR:publish:both")
+    # progress hand-over: a finished Block moves from the worker's counters to the coder's totals in ONE critical
+    # section of coder->mutex (get_progress() sums both under that mutex: outside it the Block would be counted twice
+    # or not at all)
+    ws = prog.fn("worker_start", FILE)
+    adds = [b.id for b, i, e in ws.iter_elems() for (l, r, op, n) in ex.writes(e)
+            if ex.field_key(l) == (CODER, "progress_in") and op == "+="]
+    zeros = [b.id for b, i, e in ws.iter_elems() for (l, r, op, n) in ex.writes(e)
+             if ex.field_key(l) == (THR, "progress_in") and r is not None and ex.is_const(r, 0)]
+    oka = len(adds) == 1 and zeros == adds
+    ck.ob("C08-ERR", "progress-transfer-atomic", oka, common.where(ws),
+          "worker_start: coder->progress_in += ... and thr->progress_in = 0 are in the same critical section" if oka else
+          "worker_start(): the worker's own progress counters are reset in a different critical section (block(s) %s) than "
+          "the one that adds the finished Block to coder->progress_in (block(s) %s): lzma_get_progress() can count the "
+          "Block twice and report more than the true totals" % (zeros, adds), key="ERR:progress-transfer-atomic")
     # SYNC_FLUSH not enabled
     api = prog.fn("lzma_stream_encoder_mt", FILE)
     enabled = set()
